@@ -832,54 +832,33 @@ def script(assertions, logic='ALL', get_model_for=None, extra_opts=()):
                 if not add <= reach[n]:
                     reach[n] |= add
                     changed = True
-        rec = set(n for n in names if n in reach[n])
         byname = dict((f.name, f) for f in defs)
 
         def sig(f):
             return '(%s (%s) %s)' % (sym(f.name), ' '.join('(%s %s)' % (sym(p), s) for p, s in f.params), f.ret)
+        comp = {}
+        for n in names:
+            comp[n] = frozenset([n] + [m for m in reach[n] if n in reach[m]])
+        comps = sorted(set(comp.values()), key=lambda c: sorted(c))
         emitted = set()
-        rec_done = False
-
-        def emit_rec():
-            rl = [byname[n] for n in sorted(rec)]
-            lines.append('(define-funs-rec (%s)\n (%s))' % (' '.join(sig(f) for f in rl), '\n  '.join(to_smt(f.body) for f in rl)))
-        pending = [n for n in sorted(names) if n not in rec]
-        # non-recursive functions that the recursive block depends on must come first
-        def ready(n):
-            return all((m in emitted) or (m in rec and rec_done) for m in calls[n])
-        progress = True
-        while pending and progress:
+        pending = list(comps)
+        while pending:
             progress = False
-            for n in list(pending):
-                if all((m in emitted) for m in calls[n] if m not in rec) and not (calls[n] & rec):
-                    f = byname[n]
-                    lines.append('(define-fun %s (%s) %s %s)' % (sym(f.name), ' '.join('(%s %s)' % (sym(p), s) for p, s in f.params), f.ret, to_smt(f.body)))
-                    emitted.add(n)
-                    pending.remove(n)
+            for c in list(pending):
+                deps = set()
+                for n in c:
+                    deps |= calls[n]
+                if all((m in emitted) or (m in c) for m in deps):
+                    fl = [byname[n] for n in sorted(c)]
+                    if len(c) > 1 or next(iter(c)) in calls[next(iter(c))]:
+                        lines.append('(define-funs-rec (%s)\n (%s))' % (' '.join(sig(f) for f in fl), '\n  '.join(to_smt(f.body) for f in fl)))
+                    else:
+                        f = fl[0]
+                        lines.append('(define-fun %s (%s) %s %s)' % (sym(f.name), ' '.join('(%s %s)' % (sym(p), s2) for p, s2 in f.params), f.ret, to_smt(f.body)))
+                    emitted |= set(c)
+                    pending.remove(c)
                     progress = True
-        if rec:
-            # non-recursive functions used by the recursive block but depending on it would be circular; they are not (by construction)
-            missing = set()
-            for n in rec:
-                missing |= set(m for m in calls[n] if m not in rec and m not in emitted)
-            for n in sorted(missing):
-                # depends (transitively) on the recursive block and is used by it: treat as part of it
-                rec.add(n)
-                if n in pending:
-                    pending.remove(n)
-            emit_rec()
-            rec_done = True
-        progress = True
-        while pending and progress:
-            progress = False
-            for n in list(pending):
-                if all((m in emitted) or (m in rec) for m in calls[n]):
-                    f = byname[n]
-                    lines.append('(define-fun %s (%s) %s %s)' % (sym(f.name), ' '.join('(%s %s)' % (sym(p), s) for p, s in f.params), f.ret, to_smt(f.body)))
-                    emitted.add(n)
-                    pending.remove(n)
-                    progress = True
-        assert not pending, pending
+            assert progress, pending
     for n in sorted(need_defs):
         for ax in FUNDEFS[n].axioms:
             lines.append('(assert %s)' % to_smt(ax))
